@@ -97,7 +97,7 @@ func c16Scenario(p c16Params) *explore.Scenario {
 			if p.Who == "bg" && i == p.At {
 				panic(c16PanicValue(p.Value))
 			}
-			if p.Who == "bg-block" && i == p.At {
+			if (p.Who == "bg-block" && i == p.At) || p.Who == "bg-block-all" {
 				vx.MarkByDesign()
 				vx.Observe("ev", fmt.Sprintf("blocking bg-x e%d", i))
 				vx.NewEvent("never").Wait()
@@ -155,7 +155,7 @@ func c16Scenario(p c16Params) *explore.Scenario {
 				bad("later-event-not-delivered", fmt.Sprintf("handler fg-x: event %d entered %d times, completed %d times", i, cnt(fmt.Sprintf("enter fg-x e%d", i)), cnt(fmt.Sprintf("good fg-x e%d", i))))
 			}
 			wantB := 1
-			if (p.Who == "bg" || p.Who == "bg-block") && i == p.At {
+			if ((p.Who == "bg" || p.Who == "bg-block") && i == p.At) || p.Who == "bg-block-all" {
 				wantB = 0
 			}
 			if cnt(fmt.Sprintf("good bg-x e%d", i)) != wantB {
@@ -186,7 +186,7 @@ func c16Scenario(p c16Params) *explore.Scenario {
 		}
 		// recovery
 		panics := 1
-		if p.Who == "bg-block" {
+		if p.Who == "bg-block" || p.Who == "bg-block-all" {
 			panics = 0
 		}
 		if p.Custom {
@@ -228,13 +228,17 @@ func c16Scenario(p c16Params) *explore.Scenario {
 		}
 		// nothing but the blocked-by-design handler is left
 		leaks := ClientLeaks(o)
-		if p.Who == "bg-block" {
+		if p.Who == "bg-block" || p.Who == "bg-block-all" {
 			// the goroutine that dispatched the background set waits for the handler that never returns: inherent
+			allowed := 1
+			if p.Who == "bg-block-all" {
+				allowed = p.NEvents
+			}
 			var rest []string
 			waiting := 0
 			for _, b := range o.Blocked {
 				if b.Client && !b.ByDesign {
-					if b.Op == "WaitGroup.Wait" && waiting == 0 {
+					if b.Op == "WaitGroup.Wait" && waiting < allowed {
 						waiting++
 						continue
 					}
@@ -245,6 +249,17 @@ func c16Scenario(p c16Params) *explore.Scenario {
 		}
 		if len(leaks) > 0 {
 			bad("leak", "tasks left at the end: "+strings.Join(leaks, " | "))
+		}
+		if p.Who == "bg-block-all" {
+			nb := 0
+			for _, b := range o.Blocked {
+				if b.ByDesign {
+					nb++
+				}
+			}
+			if nb != p.NEvents {
+				bad("blocked-count", fmt.Sprintf("%d blocked-by-design tasks at the end, expected one background handler per event (%d)", nb, p.NEvents))
+			}
 		}
 		if p.Who == "bg-block" {
 			nb := 0
@@ -304,6 +319,9 @@ func init() {
 			add(c16Params{Who: "bg-block", At: 0, Value: "none", NEvents: 2})
 			add(c16Params{Who: "bg-block", At: 0, Value: "none", NEvents: 3})
 			add(c16Params{Who: "bg-block", At: 1, Value: "none", Custom: true, NEvents: 3})
+			// a background handler that blocks on EVERY event must not delay foreground delivery either, however many events
+			jobs = append(jobs, ExploreJob("C16", ExploreSpec{Sc: c16Scenario(c16Params{Who: "bg-block-all", At: 0, Value: "none", NEvents: 80}), Variants: []int{1, 3}, Budgets: []explore.Budget{{0, 0}}, Cache: true}, 80))
+			jobs = append(jobs, ExploreJob("C16", ExploreSpec{Sc: c16Scenario(c16Params{Who: "bg-block-all", At: 0, Value: "none", NEvents: 3}), Variants: []int{1, 2, 3}, Budgets: []explore.Budget{{0, 0}, {1, 0}, {2, 0}}, Cache: true}, 30))
 			// a background handler that never returns must not delay ANY number of later events
 			jobs = append(jobs, ExploreJob("C16", ExploreSpec{Sc: c16Scenario(c16Params{Who: "bg-block", At: 0, Value: "none", NEvents: 80}), Variants: []int{1, 3}, Budgets: []explore.Budget{{0, 0}}, Cache: true}, 80))
 			if tier == "thorough" {
